@@ -36,12 +36,33 @@
 (* does not catch ends the thread: nothing of that manager is written any more) is not in the code *)
 (* and is kept to name that class of regression; WriterDiesOnCopyError is the same for a failing   *)
 (* copy.deepcopy, which in the code as it is sits outside the try block.                           *)
+(* The clean shutdown of a machine is a SEQUENCE of steps of the main thread                       *)
+(* (mpf/core/machine.py: stop -> _run_loop -> _do_stop -> shutdown), and data is handed to the      *)
+(* managers while it runs (mpc is the main thread's position in it):                                *)
+(*   StopRequested  machine.stop() (or the `quit` event): the loop is asked to end; callbacks that  *)
+(*                  are still running may save                                                      *)
+(*   DoStop         _do_stop() begins: the `shutdown` event is posted and its handlers run          *)
+(*   Handler        one more handler of the `shutdown` event (or of an event posted by one) starts; *)
+(*                  handlers save data (SaveAll, also through a persistent machine variable) and    *)
+(*                  may be slow: the writers take steps in between                                  *)
+(*   StopperSet     all handlers are done; shutdown() sets machine.thread_stopper                   *)
+(*   ProcessExit    the process ends (mpf game: logging is shut down, sys.exit()); in the design    *)
+(*                  the main thread has waited for the writers before (they are joined)             *)
+(* after StopperSet every writer does its final flush and ends.  Data handed over at any point BEFORE *)
+(* StopperSet is covered by the statement ("however saves and the shutdown are timed").  Shutdown   *)
+(* is the whole sequence without handlers in one step (part 1 of the driver sets the stopper of a   *)
+(* stub machine itself).  StopperSetEarly names the class of regression where the stopper is set    *)
+(* before the last handler is done: a writer may then end while data is still being handed over.    *)
+(* NoJoinBeforeExit: the process ends without waiting for the writers (threads that the interpreter *)
+(* does not wait for are gone wherever they are: asleep in the rate limit, in the middle of a write).*)
 EXTENDS Integers, Sequences, FiniteSets, TLC
 CONSTANTS NM,           \* number of data managers
           MaxSaves,     \* budget of SaveAll calls (= number of versions)
           MaxErrors,    \* budget of injected faults (both kinds)
           MaxBad,       \* budget of versions that cannot be written (kinds norepr, nocopy)
           MaxCrashes,   \* budget of process crashes
+          MaxHandlers,  \* budget of handlers of the shutdown event
+          StopSeq,      \* BOOLEAN: the stop sequence of a machine step by step (otherwise Shutdown in one step)
           Deviations
 M == 1..NM
 FaultKinds == {"io", "exc"}                \* injected: an OSError / any other exception
@@ -60,8 +81,12 @@ VARIABLES pc,         \* [M -> program counter]
           who,        \* ghost: who[v] = manager that version v was handed to
           kind,       \* ghost: kind[v] = kind of version v
           used,       \* deviations this behaviour has made use of
+          mpc,        \* main thread: "run", "stopreq" (stop requested), "handlers" (in _do_stop), "stopped",
+                      \* "exited" (the process has ended)
+          nh,         \* handlers of the shutdown event started so far
           nerrs, ncrash, act
-vars == <<pc, fin, dirty, data, cp, file, tmp, isBusy, stopper, poisoned, errSince, who, kind, used, nerrs, ncrash, act>>
+vars == <<pc, fin, dirty, data, cp, file, tmp, isBusy, stopper, poisoned, errSince, who, kind, used, mpc, nh, nerrs, ncrash, act>>
+mainv == <<mpc, nh>>
 
 CS == {"clearDirty", "copy", "saveOpen", "saveWrite", "saveClose", "replace"}
 PCs == {"initSleep", "waitDirty", "waitBusy", "rateSleep", "exited"} \cup CS
@@ -73,32 +98,55 @@ NBad == Cardinality({v \in 1..Len(kind) : kind[v] # "ok"})
 Init == /\ pc = [i \in M |-> "initSleep"] /\ fin = [i \in M |-> FALSE] /\ dirty = [i \in M |-> FALSE]
         /\ data = [i \in M |-> 0] /\ cp = [i \in M |-> 0] /\ file = [i \in M |-> 0] /\ tmp = [i \in M |-> NoTmp]
         /\ isBusy = FALSE /\ stopper = FALSE /\ poisoned = FALSE /\ errSince = [i \in M |-> FALSE]
-        /\ who = <<>> /\ kind = <<>> /\ used = {} /\ nerrs = 0 /\ ncrash = 0 /\ act = [op |-> "init"]
+        /\ who = <<>> /\ kind = <<>> /\ used = {} /\ mpc = "run" /\ nh = 0 /\ nerrs = 0 /\ ncrash = 0
+        /\ act = [op |-> "init"]
 
 \* ---------------------------------------------------------------------------------------- main
+\* data can be handed over until the stop sequence has set the stopper (not: until the stopper happens to be set)
 SaveAll(i, k) ==
-    /\ ~stopper /\ Len(who) < MaxSaves /\ (k # "ok" => NBad < MaxBad)
+    /\ mpc \notin {"stopped", "exited"} /\ Len(who) < MaxSaves /\ (k # "ok" => NBad < MaxBad)
     /\ data' = [data EXCEPT ![i] = Len(who) + 1] /\ who' = Append(who, i) /\ kind' = Append(kind, k)
     /\ dirty' = [dirty EXCEPT ![i] = TRUE] /\ errSince' = [errSince EXCEPT ![i] = FALSE]
     /\ act' = [op |-> "save", i |-> i, v |-> Len(who) + 1, k |-> k]
-    /\ UNCHANGED <<pc, fin, cp, file, tmp, isBusy, stopper, poisoned, used, nerrs, ncrash>>
+    /\ UNCHANGED <<pc, fin, cp, file, tmp, isBusy, stopper, poisoned, used, mainv, nerrs, ncrash>>
 Shutdown ==
-    /\ ~stopper /\ stopper' = TRUE /\ act' = [op |-> "shutdown"]
+    /\ mpc = "run" /\ stopper' = TRUE /\ mpc' = "stopped" /\ act' = [op |-> "shutdown"]
+    /\ UNCHANGED <<pc, fin, dirty, data, cp, file, tmp, isBusy, poisoned, errSince, who, kind, used, nh, nerrs, ncrash>>
+\* ------------------------------------------------------------ the stop sequence of a machine, step by step
+MainStep(to, op) ==
+    /\ mpc' = to /\ act' = [op |-> op]
     /\ UNCHANGED <<pc, fin, dirty, data, cp, file, tmp, isBusy, poisoned, errSince, who, kind, used, nerrs, ncrash>>
+StopRequested == mpc = "run" /\ MainStep("stopreq", "stop") /\ UNCHANGED <<stopper, nh>>
+DoStop == mpc \in {"run", "stopreq"} /\ MainStep("handlers", "dostop") /\ UNCHANGED <<stopper, nh>>
+Handler == mpc = "handlers" /\ nh < MaxHandlers /\ nh' = nh + 1 /\ MainStep("handlers", "h") /\ UNCHANGED stopper
+StopperSet == mpc = "handlers" /\ stopper' = TRUE /\ MainStep("stopped", "stopped") /\ UNCHANGED nh
+\* the process ends; the design waits for the writers first
+ProcessExit ==
+    /\ mpc = "stopped" /\ mpc' = "exited" /\ act' = [op |-> "exit"]
+    /\ \/ (\A i \in M : pc[i] = "exited") /\ UNCHANGED <<pc, cp, isBusy, used>>
+       \/ /\ "NoJoinBeforeExit" \in Deviations /\ (\E i \in M : pc[i] # "exited")
+          /\ pc' = [i \in M |-> "exited"] /\ cp' = [i \in M |-> 0] /\ isBusy' = FALSE
+          /\ used' = used \cup {"NoJoinBeforeExit"}
+    /\ UNCHANGED <<fin, dirty, data, file, tmp, stopper, poisoned, errSince, who, kind, nh, nerrs, ncrash>>
+\* regression class: something in the stop sequence sets the stopper before the handlers are done
+EarlyStopper ==
+    /\ "StopperSetEarly" \in Deviations /\ mpc \in {"stopreq", "handlers"} /\ ~stopper
+    /\ stopper' = TRUE /\ used' = used \cup {"StopperSetEarly"} /\ act' = [op |-> "earlystopper"]
+    /\ UNCHANGED <<pc, fin, dirty, data, cp, file, tmp, isBusy, poisoned, errSince, who, kind, mainv, nerrs, ncrash>>
 \* the process dies; only the files survive; a new process loads them
 Crash ==
     /\ ncrash < MaxCrashes /\ ncrash' = ncrash + 1
     /\ pc' = [i \in M |-> "initSleep"] /\ fin' = [i \in M |-> FALSE] /\ dirty' = [i \in M |-> FALSE]
     /\ data' = file /\ cp' = [i \in M |-> 0] /\ isBusy' = FALSE /\ stopper' = FALSE /\ poisoned' = FALSE
-    /\ errSince' = [i \in M |-> FALSE] /\ act' = [op |-> "crash"]
+    /\ errSince' = [i \in M |-> FALSE] /\ mpc' = "run" /\ nh' = 0 /\ act' = [op |-> "crash"]
     /\ UNCHANGED <<file, tmp, who, kind, used, nerrs>>
 \* harness aid to look behind a leaked flag: never enabled in the design (isBusy => some holder)
 ForceRelease ==
     /\ isBusy /\ Holders = {} /\ isBusy' = FALSE /\ act' = [op |-> "unwedge"]
-    /\ UNCHANGED <<pc, fin, dirty, data, cp, file, tmp, stopper, poisoned, errSince, who, kind, used, nerrs, ncrash>>
+    /\ UNCHANGED <<pc, fin, dirty, data, cp, file, tmp, stopper, poisoned, errSince, who, kind, used, mainv, nerrs, ncrash>>
 
 \* -------------------------------------------------------------------------------------- writer
-WAct(i, f) == act' = [op |-> "w", i |-> i, pc |-> pc[i], fault |-> f]
+WAct(i, f) == act' = [op |-> "w", i |-> i, pc |-> pc[i], fault |-> f] /\ UNCHANGED mainv
 \* `while not stopper:` and, once the loop is left, `if dirty: flush`
 LoopCheck(i) ==
     IF ~stopper THEN /\ pc' = [pc EXCEPT ![i] = "waitDirty"] /\ UNCHANGED <<fin, used>>
@@ -211,7 +259,8 @@ W(i, f) == \/ f = "none" /\ (SleepDone(i) \/ WaitDirty(i) \/ WaitBusy(i) \/ Clea
            \/ Copy(i, f) \/ SaveOpen(i, f) \/ SaveWrite(i, f) \/ SaveClose(i, f) \/ Replace(i, f)
 
 Next == \/ \E i \in M, k \in Kinds : SaveAll(i, k)
-        \/ Shutdown \/ Crash \/ ForceRelease
+        \/ (~StopSeq /\ Shutdown) \/ (StopSeq /\ (StopRequested \/ DoStop \/ Handler \/ StopperSet \/ ProcessExit)) \/ EarlyStopper
+        \/ Crash \/ ForceRelease
         \/ \E i \in M, f \in {"none"} \cup FaultKinds : W(i, f)
 Spec == Init /\ [][Next]_vars
 FairSpec == Spec /\ \A i \in M : WF_vars(W(i, "none"))
@@ -222,11 +271,15 @@ TypeOK == /\ pc \in [M -> PCs] /\ fin \in [M -> BOOLEAN] /\ dirty \in [M -> BOOL
           /\ \A i \in M : tmp[i].st \in {"absent", "partial", "complete"} /\ tmp[i].v \in 0..MaxSaves
           /\ isBusy \in BOOLEAN /\ stopper \in BOOLEAN /\ poisoned \in BOOLEAN /\ used \subseteq Deviations
           /\ Len(kind) = Len(who) /\ \A v \in 1..Len(kind) : kind[v] \in Kinds
+          /\ mpc \in {"run", "stopreq", "handlers", "stopped", "exited"} /\ nh \in 0..MaxHandlers
 \* at every instant (hence at every crash point) the data file is absent or a complete version handed to its manager
 \* (one that could be written at all)
 NeverTorn == \A i \in M : file[i] = 0 \/ (file[i] \in 1..Len(who) /\ who[file[i]] = i /\ kind[file[i]] = "ok")
-\* a writer that has run to its end after Shutdown leaves the last saved data on disk
+\* a writer that has run to its end after the shutdown leaves the last saved data on disk: whatever was handed over
+\* before the stop sequence set the stopper (in the run, after the stop request, by handlers of the shutdown event)
 DurableAfterShutdown == \A i \in M : pc[i] = "exited" => (file[i] = data[i] \/ errSince[i])
+\* ... and once the process has ended after a clean shutdown, that holds for every manager
+DurableAfterExit == mpc = "exited" => \A i \in M : file[i] = data[i] \/ errSince[i]
 SingleWriter == Cardinality(Holders) <= 1
 BusyWhileWriting == Holders # {} => isBusy
 \* liveness (under FairSpec): a failed write - whatever made it fail - does not stop later saves: the latest data
